@@ -202,15 +202,14 @@ Proof.
   - rewrite Heq. destruct (down_reset s1).
     + pose proof (ok_clean_stream s1) as H2. destruct (clean_stream src c s1) as [s2 o2]. cbn [fst snd] in *. eapply R_trans; eauto.
     + destruct (direct s1).
-      * assert (Hd : okA (when (fun s0 => match retry s0 with Some _ => true | None => false end) (rs_reset src c) ;;
-                          upd (fun s0 => s0 <| setup_retry := false |>))).
-        { pose proof ok_rs_reset. ok_auto. }
-        assert (H3 : exists s1r o1r, R s1 o1r s1r /\
-                  (if direct_cancels_retry src
-                   then (when (fun s0 => match retry s0 with Some _ => true | None => false end) (rs_reset src c) ;;
-                         upd (fun s0 => s0 <| setup_retry := false |>)) s1 else (s1, [])) = (s1r, o1r)).
+      * set (D := (when (fun s0 => match retry s0 with Some _ => true | None => false end) (rs_reset src c) ;;
+                   upd (fun s0 => s0 <| setup_retry := false |>) ;;
+                   (if direct_resets_upstream src then when has_upreq upreq_reset_stream else ret))).
+        assert (Hd : okA D).
+        { unfold D. pose proof ok_rs_reset. pose proof ok_upreq_reset_stream. ok_auto. }
+        assert (H3 : exists s1r o1r, R s1 o1r s1r /\ (if direct_cancels_retry src then D s1 else (s1, [])) = (s1r, o1r)).
         { destruct (direct_cancels_retry src).
-          - specialize (Hd s1). destruct ((when _ (rs_reset src c) ;; upd _) s1) as [s1r o1r]. exists s1r, o1r. split; auto.
+          - specialize (Hd s1). destruct (D s1) as [s1r o1r]. exists s1r, o1r. split; auto.
           - exists s1, []. split; auto. apply R_refl. }
         destruct H3 as (s1r & o1r & HR2 & Heq2). rewrite Heq2.
         assert (HR3 : R s (o1 ++ o1r) s1r) by (eapply R_trans; eauto).
@@ -417,8 +416,8 @@ Qed.
 
 (* environment steps never clean and only emit upstream resets *)
 Lemma env_shape e s :
-  cleaned (fst (env_step c e s)) = cleaned s /\
-  (forall o, In o (snd (env_step c e s)) -> exists k, o = OUpReset k).
+  cleaned (fst (env_step src c e s)) = cleaned s /\
+  (forall o, In o (snd (env_step src c e s)) -> exists k, o = OUpReset k).
 Proof.
   assert (Hr : forall s0, cleaned (fst (upreq_reset_stream s0)) = cleaned s0 /\
                           forall o, In o (snd (upreq_reset_stream s0)) -> exists k, o = OUpReset k).
@@ -426,7 +425,10 @@ Proof.
     intros o [<-|[]]. eauto. }
   assert (Hu : forall why s0, cleaned (fst (on_up_reset why s0)) = cleaned s0 /\ snd (on_up_reset why s0) = []).
   { intros why s0. unfold on_up_reset, ite, ret, upd. destruct (setup_retry s0), (up_reset s0); cbn; auto. }
-  destruct e as [k st d t|k r|k| |r|code|]; cbn [env_step].
+  set (X := if timers_reset_stream src then upreq_reset_stream else ret).
+  assert (Hx : forall s0, cleaned (fst (X s0)) = cleaned s0 /\ forall o, In o (snd (X s0)) -> exists k, o = OUpReset k).
+  { unfold X. destruct (timers_reset_stream src); [apply Hr|]. intros s0. cbn. split; auto. tauto. }
+  destruct e as [k st d t|k r|k| |r|code|]; cbn [env_step]; fold X.
   - destruct ((k =? cur s)%nat && up_sender s && up_alive s && negb (c_oneway c)); [|cbn; split; auto; tauto].
     destruct (process_done_b (s <| up_alive := false |>) || setup_retry (s <| up_alive := false |>)); [cbn; split; auto; tauto|].
     destruct (received (s <| up_alive := false |>)); cbn; split; auto; tauto.
@@ -438,7 +440,7 @@ Proof.
     destruct (received (s <| try_armed := None |>)); [cbn; split; auto; tauto|].
     destruct (resp_started (s <| try_armed := None |> <| received := true |>)); [cbn; split; auto; tauto|].
     unfold aseq. set (s2 := s <| try_armed := None |> <| received := true |>).
-    destruct (Hr s2) as [H1 H2]. destruct (upreq_reset_stream s2) as [s3 o3]. cbn [fst snd] in *.
+    destruct (Hx s2) as [H1 H2]. destruct (X s2) as [s3 o3]. cbn [fst snd] in *.
     destruct (Hu RsPerTryTimeout s3) as [H3 H4]. destruct (on_up_reset RsPerTryTimeout s3) as [s4 o4]. cbn [fst snd] in *.
     subst o4. rewrite app_nil_r. split; auto. rewrite H3, H1. reflexivity.
   - destruct (global_armed s); [|cbn; split; auto; tauto].
@@ -446,7 +448,7 @@ Proof.
     destruct (received (s <| global_armed := false |>)); [cbn; split; auto; tauto|].
     destruct (has_upreq (s <| global_armed := false |> <| received := true |>)); [|cbn; split; auto; tauto].
     unfold aseq. set (s2 := s <| global_armed := false |> <| received := true |>).
-    destruct (Hr s2) as [H1 H2]. destruct (upreq_reset_stream s2) as [s3 o3]. cbn [fst snd] in *.
+    destruct (Hx s2) as [H1 H2]. destruct (X s2) as [s3 o3]. cbn [fst snd] in *.
     destruct (Hu RsGlobalTimeout s3) as [H3 H4]. destruct (on_up_reset RsGlobalTimeout s3) as [s4 o4]. cbn [fst snd] in *.
     subst o4. rewrite app_nil_r. split; auto. rewrite H3, H1. reflexivity.
   - unfold on_down_reset, ite, ret, upd. destruct (down_reset s); cbn; split; auto; tauto.
@@ -455,20 +457,20 @@ Proof.
   - destruct (sleeping s); cbn; split; auto; tauto.
 Qed.
 
-Lemma ok_env e s : R s (snd (env_step c e s)) (fst (env_step c e s)).
+Lemma ok_env e s : R s (snd (env_step src c e s)) (fst (env_step src c e s)).
 Proof.
   destruct (env_shape e s) as [H1 H2]. apply R_of_eq; auto.
   unfold m3, count_gauge, count_log, count_destroy, count.
-  assert (Hf : forall p, (forall k, p (OUpReset k) = false) -> filter p (snd (env_step c e s)) = []).
-  { intros p Hp. induction (snd (env_step c e s)) as [|o l IH]; cbn; auto.
+  assert (Hf : forall p, (forall k, p (OUpReset k) = false) -> filter p (snd (env_step src c e s)) = []).
+  { intros p Hp. induction (snd (env_step src c e s)) as [|o l IH]; cbn; auto.
     destruct (H2 o (or_introl eq_refl)) as [k ->]. rewrite Hp. apply IH. intros o' Ho'. apply H2. now right. }
   rewrite !Hf; auto.
 Qed.
 
-Lemma env_no_down_gen e s : filter is_down_out (snd (env_step c e s)) = [].
+Lemma env_no_down_gen e s : filter is_down_out (snd (env_step src c e s)) = [].
 Proof.
   destruct (env_shape e s) as [_ H2].
-  induction (snd (env_step c e s)) as [|o l IH]; cbn; auto.
+  induction (snd (env_step src c e s)) as [|o l IH]; cbn; auto.
   destruct (H2 o (or_introl eq_refl)) as [k ->]. cbn. apply IH. intros o' Ho'. apply H2. now right.
 Qed.
 
@@ -495,7 +497,7 @@ Proof.
     repeat split; auto; try congruence; try lia; intros; try congruence; try lia.
 Qed.
 
-Theorem env_no_down : forall c e s, filter is_down_out (snd (env_step c e s)) = [].
+Theorem env_no_down : forall src c e s, filter is_down_out (snd (env_step src c e s)) = [].
 Proof. intros. apply env_no_down_gen. Qed.
 
 (* the reply generated for an upstream reset carries the reason's code *)
